@@ -152,6 +152,58 @@ def seq_vs_loop(p, fam, k, ns, x, form='list', ctx=None, item=None, case=None):
     return None
 
 
+def _twin(fam):
+    t = fam[:-4] if fam.endswith('_der') else fam + '_der'
+    return t if t in FAMS else None
+
+
+def replay_seq_case(p, fam, k, ns, x, form='list', pre_calls=None):
+    """Evaluate a recorded single-call case FROM THE IMPORT-TIME STATE of the package.  `pre_calls`: families evaluated first with the
+    same orders and coordinates (a failure that needs an earlier call).  Without it the call is made and, when it passes, made again
+    (the property holds for every call, also the second one with the same arguments).  -> description or None"""
+    from harness.c07 import cold_state
+    cold_state()
+    for f in (pre_calls or []):
+        try:
+            FAMS[f][0](p, ns_form(list(ns), form), k, x)
+        except Exception:      # noqa
+            pass
+    d = seq_vs_loop(p, fam, k, ns, x, form=form)
+    if d and pre_calls:
+        return f'after evaluating {[f + "_seq" for f in pre_calls]} with the same orders and coordinates: ' + d
+    if d is None and pre_calls is None:
+        d = seq_vs_loop(p, fam, k, ns, x, form=form)
+        if d:
+            return 'second call with the same arguments: ' + d
+    return d
+
+
+def isolate(p, fam, k, ns, shape, lo, hi, dtype='float64', form='list'):
+    """A failure seen in the middle of the run may depend on what was evaluated before.  Find the shortest call history from the
+    import-time state that reproduces it on the deterministic replay coordinates: [] (a single call fails), or the calls to make
+    first.  -> list of families, or None when no short history reproduces it."""
+    x = _det_coords(tuple(shape), lo, hi, dtype)
+    t = _twin(fam)
+    for pre in [[], [fam]] + ([[t], [t, fam], [t, t]] if t else []) + [[fam, fam]]:
+        if replay_seq_case(p, fam, k, ns, x, form, pre_calls=pre):
+            return pre
+    return None
+
+
+def seq_fail(ctx, p, item, case, d, fam, k, ns, x, dtype='float64', form='list'):
+    """record a failure of the predicate seq == loop; the first ones of each family are put in a form that replays in a fresh process"""
+    n = sum(1 for f in ctx.pred_failures if f['item'] == item)
+    if n < 2:
+        lo, hi = FAMS[fam][3]
+        pre = isolate(p, fam, k, ns, x.shape, lo, hi, dtype, form)
+        if pre:
+            case = {**case, 'pre_calls': pre}
+            d += f' [history dependence: from the import-time state it takes the earlier calls {[f + "_seq" for f in pre]} with the same arguments]'
+        elif pre is None:
+            d += ' [not reproduced by a short call history from the import-time state on the replay coordinates]'
+    ctx.pred_fail(item, case, d)
+
+
 def all_subsets(top=8):
     out = []
     for mask in range(1, 1 << top):
@@ -247,7 +299,7 @@ def correspondence(ctx):
                 ctx.case(f'seq:{fam}', case, nontrivial=ns != [0], tag=tag)
                 d = seq_vs_loop(p, fam, k, ns, x, ctx=ctx if li % 5 == 0 else None, item=f'seq:{fam}', case=case)
                 if d:
-                    ctx.pred_fail(f'seq:{fam}', case, d)
+                    seq_fail(ctx, p, f'seq:{fam}', case, d, fam, k, ns, x)
             # coordinate dtypes other than float64 and other spellings of the order list
             if li % scale(6, 2) == 0:
                 dt = DTYPES[1 + (li // scale(6, 2) + fi) % (len(DTYPES) - 1)]
@@ -260,7 +312,7 @@ def correspondence(ctx):
                 ctx.case(f'seq:{fam}', case, nontrivial=ns != [0], tag=f'dtype-{dt}/{form}')
                 d = seq_vs_loop(p, fam, k, ns, x, form=form)
                 if d:
-                    ctx.pred_fail(f'seq:{fam}', case, d)
+                    seq_fail(ctx, p, f'seq:{fam}', case, d, fam, k, ns, x, dtype=dt, form=form)
             if drv is not None:
                 xv = float(dyadic(rng, lo, hi, ()))
                 lines.append(f"s {drv} | {' '.join(C.f2w(v) for v in k)} | {' '.join(map(str, ns))} | {C.f2w(xv)}")
@@ -417,15 +469,30 @@ def _hist_coords(base, dtype, shape):
     return np.asarray(v, dtype=complex if dtype == 'complex128' else dtype)
 
 
-def run_history(p, fam, k, ns, steps, base):
-    """execute the call history; -> (index of the first failing step, description) or None"""
+def _norm_steps(steps):
+    """history steps are (what, shape) or (what, shape, parameter index, order-list index)"""
+    return [tuple(st) + (0, 0) if len(st) == 2 else tuple(st) for st in ((s[0], tuple(s[1]), *s[2:]) for s in steps)]
+
+
+def run_history(p, fam, ks, nss, steps, base):
+    """execute the call history FROM THE IMPORT-TIME STATE of prysm.polynomials (harness.c07.cold_state: whatever the run evaluated
+    before must not have warmed a cache with double precision values); -> (index of the first failing step, description) or None.
+    ks / nss: the parameter tuples and order lists the steps choose from (a single tuple / list is accepted)."""
     from prysm.conf import config
+    from harness.c07 import cold_state
+    if not ks or not isinstance(ks[0], (tuple, list)):
+        ks = [ks]
+    if not nss or not isinstance(nss[0], (tuple, list)):
+        nss = [nss]
+    steps = _norm_steps(steps)
     old = 32 if config.precision == np.float32 else 64
+    cold_state()
     try:
-        for i, (what, shape) in enumerate(steps):
+        for i, (what, shape, ki, ni) in enumerate(steps):
             dt = what.split(':')[-1]
             config.precision = 32 if what.startswith('prec32') else 64
             x = _hist_coords(base, dt, shape)
+            k, ns = tuple(ks[ki % len(ks)]), list(nss[ni % len(nss)])
             d = seq_vs_loop(p, fam, k, ns, x)
             if d is None:
                 out = np.asarray(FAMS[fam][0](p, list(ns), k, x))
@@ -435,10 +502,46 @@ def run_history(p, fam, k, ns, steps, base):
                 if ref0.dtype.kind in 'fc' and out.dtype.kind not in 'fc' or (ref0.dtype.kind == 'c' and out.dtype.kind != 'c'):
                     d = f'{fam}_seq returned dtype {out.dtype}, the single-order function {ref0.dtype} (x.dtype={x.dtype})'
             if d:
+                return i, f'(parameters {list(k)}, orders {ns}) ' + d
+    finally:
+        config.precision = old
+    return None
+
+
+def _mixed_steps(first):
+    """two parameter tuples x two order lists (which share orders) x single / double precision, interleaved: a cache keyed on ANY
+    proper subset of (orders, parameters, dtype, ndim) hands some later call a value computed for another one"""
+    other = 'float64' if first != 'float64' else 'float32'
+    steps = []
+    for what, shape in ((first, (5,)), (other, (5,)), (other, (3, 4)), (first, (3, 4)), (first, (5,)), ('prec32:float64', (5,)), ('float64', (5,))):
+        for ki in (0, 1):
+            for ni in (0, 1):
+                steps.append((what, shape, ki, ni))
+    return steps
+
+
+def run_pair_history(p, kind, prs, steps, base, norm=True):
+    """the same for the pair-list routines (zernike_nm_seq, zernike_nm_der_seq, Q2d_seq, xy_seq), from the import-time state"""
+    from prysm.conf import config
+    from harness.c07 import cold_state
+    old = 32 if config.precision == np.float32 else 64
+    cold_state()
+    try:
+        for i, (what, shape) in enumerate((s[0], tuple(s[1])) for s in steps):
+            dt = what.split(':')[-1]
+            config.precision = 32 if what.startswith('prec32') else 64
+            a = np.abs(_hist_coords(base, dt, shape))
+            b = _hist_coords(base[::-1], dt, shape)
+            d = pairs_vs_loop(p, kind, prs, a, b, norm=norm, tol=2e-5 if dt == 'float32' else 1e-10)
+            if d:
                 return i, d
     finally:
         config.precision = old
     return None
+
+
+PAIR_HISTORY = [('float32', (5,)), ('float64', (5,)), ('float64', (3, 4)), ('float32', (3, 4)), ('float64', ()), ('prec32:float64', (5,)), ('float64', (5,))]
+PAIR_HISTORY_LISTS = [[(2, 2), (2, -2), (4, 0)], [(3, 1), (5, 1), (5, -1), (1, 1)], [(4, 2), (2, 0), (6, -2)]]
 
 
 def histories(ctx, p, scale):
@@ -458,7 +561,38 @@ def histories(ctx, p, scale):
             if r:
                 i, d = r
                 case = {**case, 'history': case['history'][:i + 1]}
-                ctx.pred_fail(f'history:{fam}', case, f'step {i + 1} of the call history ({steps[i][0]} coordinates of shape {steps[i][1]} after '
+                ctx.pred_fail(f'history:{fam}', case, f'step {i + 1} of the call history from the import-time state ({steps[i][0]} coordinates of shape {steps[i][1]} after '
+                              f'{[w for w, _ in steps[:i]]}): {d}')
+        # interleaved parameters / order lists / precisions
+        for hi_, first in enumerate(('float32', 'float64', 'prec32:float64')):
+            base = dyadic(rng, lo, hi, (24,))
+            ks = [plist[fi % len(plist)], plist[(fi + 1) % len(plist)]]
+            cap = 25 if fam.startswith('Q') else 40
+            nss = [HISTORY_LISTS[(fi + hi_) % len(HISTORY_LISTS)], sorted({min(n + 1, cap) for n in HISTORY_LISTS[(fi + hi_) % len(HISTORY_LISTS)]} | {HISTORY_LISTS[(fi + hi_) % len(HISTORY_LISTS)][0]})]
+            steps = _mixed_steps(first)
+            case = {'family': fam, 'params_list': [list(k) for k in ks], 'ns_list': [list(n) for n in nss], 'history': [[w, list(sh), ki, ni] for w, sh, ki, ni in steps], 'base': base.tolist()}
+            ctx.case(f'history:{fam}', case, nontrivial=True, tag='interleaved parameters/orders/precisions')
+            ctx.evaluations += len(steps) - 1
+            r = run_history(p, fam, ks, nss, steps, base)
+            if r:
+                i, d = r
+                case = {**case, 'history': case['history'][:i + 1]}
+                ctx.pred_fail(f'history:{fam}', case, f'step {i + 1} of the interleaved call history from the import-time state ({steps[i][0]} coordinates of shape {steps[i][1]}): {d}')
+    # the pair-list routines
+    for ki, (kind, norm) in enumerate((('zern', True), ('zern', False), ('zern_der', True), ('q2d', True), ('xy', True), ('xy_default', True))):
+        for li, prs in enumerate(PAIR_HISTORY_LISTS[:scale(2, 3)]):
+            pr = [(abs(a), abs(b)) for a, b in prs] if kind.startswith('xy') else prs
+            base = dyadic(rng, 0.05, 0.95, (24,))
+            rot = (li + ki) % len(PAIR_HISTORY)
+            steps = PAIR_HISTORY[rot:] + PAIR_HISTORY[:rot] if li else list(PAIR_HISTORY)
+            case = {'family': kind, 'pairs': [list(q) for q in pr], 'norm': norm, 'history': [[w, list(sh)] for w, sh in steps], 'base': base.tolist()}
+            ctx.case(f'history:{kind}', case, nontrivial=True, tag='dtype/shape/precision switches')
+            ctx.evaluations += len(steps) - 1
+            r = run_pair_history(p, kind, pr, steps, base, norm)
+            if r:
+                i, d = r
+                case = {**case, 'history': case['history'][:i + 1]}
+                ctx.pred_fail(f'history:{kind}', case, f'step {i + 1} of the call history from the import-time state ({steps[i][0]} coordinates of shape {steps[i][1]} after '
                               f'{[w for w, _ in steps[:i]]}): {d}')
 
 
@@ -608,8 +742,12 @@ def replay(inp):
     print('replaying', inp['item'], c)
     fam = c['family']
     if 'history' in c:
-        steps = [(w, tuple(sh)) for w, sh in c['history']]
-        r = run_history(p, fam, tuple(c.get('params', FAMS[fam][2][0])), c['ns'], steps, np.asarray(c['base'], dtype=float))
+        steps = [(st[0], tuple(st[1]), *st[2:]) for st in c['history']]
+        if 'pairs' in c:
+            r = run_pair_history(p, c['family'], [tuple(q) for q in c['pairs']], steps, np.asarray(c['base'], dtype=float), bool(c.get('norm', True)))
+        else:
+            r = run_history(p, fam, [tuple(k) for k in c['params_list']] if 'params_list' in c else tuple(c.get('params', FAMS[fam][2][0])),
+                            c['ns_list'] if 'ns_list' in c else c['ns'], steps, np.asarray(c['base'], dtype=float))
         print(f'step {r[0] + 1}: {r[1]}' if r else 'every call of the history equals the single-order function')
         return bool(r)
     shp = tuple(c['shape'])
@@ -628,7 +766,8 @@ def replay(inp):
     elif fam in FAMS:
         lo, hi = FAMS[fam][3]
         k = tuple(c.get('params', FAMS[fam][2][0]))
-        d = seq_vs_loop(p, fam, k, c['ns'], _det_coords(shp, lo, hi, c.get('dtype', 'float64')), form=c.get('ns_form', 'list'))
+        d = replay_seq_case(p, fam, k, c['ns'], _det_coords(shp, lo, hi, c.get('dtype', 'float64')), form=c.get('ns_form', 'list'),
+                            pre_calls=c.get('pre_calls'))
     else:
         print('no replay routine for family', fam)
         return False
@@ -654,7 +793,14 @@ MANIFEST_ENTRY = {
              'one-index *_seq vs a Python loop over the scalar function, ROW BY ROW at 1e-10 of the row, for all 255 ascending subsets of {0..7}, '
              'all subsets of moving windows {k..k+4} up to order 39, random gapped lists to order 40, shapes (), (5,), (3,4), (4,4), '
              '(len(ns),3), (2,3,4), coordinate dtypes float64/int64/int32/float32/complex128, order lists as list/tuple/ndarray/range/generator/iter()/map() for EVERY *_seq (pair lists included), '
-             'pure_call (arguments not modified, second call equal); Lean sweep on Float and exactly on Rat; pair lists (both signs, shared |m|, '
+             'pure_call (arguments not modified, second call equal); CALL HISTORIES, each started from the import-time state of the package '
+             '(modules re-executed, so no cache of any kind is warm): dtype / shape / config.precision switches with the same orders for all 22 '
+             'routines, interleaved histories over two parameter tuples x two overlapping order lists x single/double precision (single first, '
+             'double first, precision-32 first), and dtype / shape histories for the pair-list routines; a failure seen mid-run is re-derived as '
+             'the shortest call history from the import-time state so that its replay reproduces in a fresh process; translated fact: no function '
+             'of prysm.polynomials stores into a module-level container / mutable default / function attribute a value that depends on a parameter '
+             'its key ignores or sees only through ndim / shape / len (dtype-blind or value-blind cache), and no lru_cache d function reads config; '
+             'Lean sweep on Float and exactly on Rat; pair lists (both signs, shared |m|, '
              'repeats, norm True/False, int/float32 coordinates) for Zernike / Zernike-der / 2D-Q / XY with independent oracles (x^m y^n on '
              'meshgrids with the default flag, 2D-Q azimuthal convention).  NOT COVERED / not tied by translation: jacobi_der_seq, Qbfs_seq, '
              'laguerre_der_seq, legendre_der_seq, zernike_nm_der_seq, Q2d_seq, xy_seq table-building loops and the table extents of '
